@@ -70,6 +70,11 @@ def build(run):
            {"w": np.array([0.5, 0.25])}, {"w": np.array([0.5, 0.25 + 1e-10])}, {"p": big}, {"p": big2}, {"quadrature_degree": "2"}]
     SIDS = ["everywhere", 1, 2, (1, 2), (2, 3), (3,)]
     ITYPES = ["dx", "ds"]
+    # an integral type registered at run time through the public registry (form compilers add their own): grouping must treat it like
+    # the built-in ones
+    import ufl.measure as _ms
+    if "cell_patch" not in _ms.integral_type_to_measure_name:
+        _ms.register_integral_type("cell_patch", "dpatch")
 
     def templates(quick):
         out = []
@@ -80,6 +85,7 @@ def build(run):
                         continue
                     out.append({"sid": sid, "md": mdi, "itype": it, "dom": 1, "cd": None})
         out += [{"sid": sid, "md": mdi, "itype": "dx", "dom": 2, "cd": None} for sid in ("everywhere", 1) for mdi in (0, 1)]
+        out += [{"sid": sid, "md": mdi, "itype": "dpatch", "dom": 1, "cd": None} for sid in ("everywhere", 1, (1, 2)) for mdi in (0, 1)]
         out += [{"sid": sid, "md": mdi, "itype": "dx", "dom": 1, "cd": k} for sid in ("everywhere", 1, (1, 2)) for mdi in (0, 1) for k in (0, 1)]
         return out
 
